@@ -167,7 +167,9 @@ def r2(run, ctx):
     # delete+add replaces the watcher object (fresh _cfg)
     lf = ctx.fn(W + 'load_from_config')
     run.check('R2', astq.has_pattern(lf.node, '$w._cfg = $c') and
-              astq.has_pattern(lf.node, '$c = $config.copy()'), 'a (re)created watcher remembers the configuration it was '
+              (astq.has_pattern(lf.node, '$c = $config.copy()') or
+               astq.has_pattern(lf.node, '$c = dict($config)') or
+               astq.has_pattern(lf.node, '$c = copy.copy($config)')), 'a (re)created watcher remembers the configuration it was '
               'built from', lf, lf.node)
 
 
@@ -299,8 +301,9 @@ def r5(run, ctx):
               "the new side's env goes through parse_env_dict", f, f.node)
     lf = ctx.fn(W + 'load_from_config')
     t2 = norm_text(lf.node)
+    copies = [k for k in ('.copy()', 'dict(config)', 'copy.copy(', 'copy.deepcopy(') if k in t2]
     run.check('R5', astq.has_pattern(t2, "$c['env'] = parse_env_dict($c['env'])") and
-              '.copy()' in t2 and t2.index("parse_env_dict") < t2.index('.copy()'),
+              bool(copies) and t2.index("parse_env_dict") < min(t2.index(k) for k in copies),
               "the remembered side's env went through parse_env_dict before it was stored", lf,
               lf.node, 'the baseline keeps the raw env while the new side is parsed: every '
               'reload sees a difference')
@@ -311,7 +314,10 @@ def r5(run, ctx):
         dels = set(astq.pattern_regex("del $d['env'][$k]").findall(body))
         run.check('R5', len(dels) >= 2,
                   'the env exceptions are dropped from both sides', f, loops[0])
-    run.check('R5', astq.has_pattern(txt, '$o = $w._cfg.copy()'), 'the baseline is compared through a '
+    run.check('R5', astq.has_pattern(txt, '$o = $w._cfg.copy()') or
+              astq.has_pattern(txt, '$o = dict($w._cfg)') or
+              astq.has_pattern(txt, '$o = copy.copy($w._cfg)') or
+              astq.has_pattern(txt, '$o = copy.deepcopy($w._cfg)'), 'the baseline is compared through a '
               'copy (the filter does not damage it)', f, f.node)
     gc = ctx.fn('circus.config:get_config')
     t3 = norm_text(gc.node)
@@ -319,7 +325,10 @@ def r5(run, ctx):
               'get_config returns name-sorted lists', gc, gc.node)
     gw = ctx.fn(A + 'get_watcher_config')
     run.check('R5', (astq.has_pattern(gw.node, "$i['name'] == name") or astq.has_pattern(gw.node, "name == $i['name']")) and
-              astq.has_pattern(gw.node, 'return $i.copy()'),
+              (astq.has_pattern(gw.node, 'return $i.copy()') or
+               astq.has_pattern(gw.node, 'return dict($i)') or
+               astq.has_pattern(gw.node, 'return copy.copy($i)') or
+               astq.has_pattern(gw.node, 'return copy.deepcopy($i)')),
               'the new side is a copy of the section with that name', gw, gw.node)
 
 
